@@ -1,7 +1,8 @@
 """C13 — reconstruction measures: what is computed from what (data flow of the real functions as terms over uninterpreted scaler / estimator functions).
 
 Real functions: pointwise_global_reconstruction_error, global_reconstruction_error, pointwise_global_reconstruction_distortion,
-global_reconstruction_distortion, local_reconstruction_error (the rms step), check_global_reconstruction_measures_input
+global_reconstruction_distortion, pointwise_local_reconstruction_error (with its nested per-point closure evaluated through the joblib generator, for every test point),
+local_reconstruction_error (the rms step), check_global_reconstruction_measures_input, check_local_reconstruction_measures_input
 (skmatter/metrics/_reconstruction_measures.py).
 
 Whole arrays are terms of an uninterpreted sort: ROWS(A, idx) (row selection), SCALE(F, A) (the scaler fitted on F applied to A), PRED(Fx, Fy, A) (the estimator
@@ -29,6 +30,15 @@ NORM = z3.Function('NORM', TA, RealS)
 COMPL = z3.Function('COMPL', IntS, TI, TI)             # np.setdiff1d(np.arange(n), idx)
 ALLIDX = z3.Function('ALLIDX', IntS, TI)                # np.arange(n)
 SQRT = npstubs.SQRT
+# operators used by the local (LRE) measure
+SQ = z3.Function('SQ', TA, TA); ROWSUM = z3.Function('ROWSUM', TA, TA); COLV = z3.Function('COLV', TA, TA); OUTERADD = z3.Function('OUTERADD', TA, TA, TA)
+SMULT = z3.Function('SMULT', RealS, TA, TA); TRT = z3.Function('TRT', TA, TA); MM = z3.Function('MM', TA, TA, TA)
+ROWV = z3.Function('ROWV', TA, IntS, TA)                 # row i of a matrix, as a vector
+ASROW = z3.Function('ASROW', TA, TA)                     # a vector as a 1 x d matrix
+MEAN0 = z3.Function('MEAN0', TA, TA)                     # column means
+SUBR = z3.Function('SUBR', TA, TA, TA); ADDR = z3.Function('ADDR', TA, TA, TA)       # matrix -/+ row vector (broadcast over the rows)
+ARGSORT = z3.Function('ARGSORT', TA, TI)                 # np.argsort of a vector (ascending)
+PREFIX = z3.Function('PREFIX', TI, IntS, TI)             # the first k entries of an index list
 
 def mk(I, term, shape):
     r = I.fresh_arr('t', shape)
@@ -50,13 +60,41 @@ def TI_(I, a):
     if A.tag and A.tag[0] == 'arange': return ALLIDX(A.tag[1])
     raise Unsupported("index array without a data-flow term")
 
+def is_T(I, a): return isinstance(a, ArrRef) and I.A(a).tag is not None and I.A(a).tag[0] == 'T' and z3.is_expr(I.A(a).tag[1])
+def is_scalar_index(x): return not isinstance(x, (tuple, slice, ArrRef, list)) and x is not None and x is not Ellipsis
 def getitem_hook(I, b, ix):
     A = I.A(b)
     if A.tag and A.tag[0] == 'T' and A.ndim == 2 and isinstance(ix, ArrRef) and I.A(ix).tag and I.A(ix).tag[0] in ('TI', 'arange'):
         return mk(I, ROWS(A.tag[1], TI_(I, ix)), (I.A(ix).shape[0], A.shape[1]))
+    if is_T(I, b) and A.ndim == 2 and (is_scalar_index(ix) or (isinstance(ix, tuple) and len(ix) == 2 and is_scalar_index(ix[0]) and ix[1] == slice(None))):
+        i = tz(ix if is_scalar_index(ix) else ix[0])
+        I.ob('index:row-within-the-matrix', And(0 <= i, i < tz(A.shape[0])), kind='index')
+        return mk(I, ROWV(A.tag[1], i), (A.shape[1],))
+    if is_T(I, b) and A.ndim == 1 and isinstance(ix, tuple) and len(ix) == 2 and ix[0] == slice(None) and ix[1] is None:
+        return mk(I, COLV(A.tag[1]), (A.shape[0], 1))
+    if is_T(I, b) and A.ndim == 1 and isinstance(ix, tuple) and len(ix) == 2 and ix[0] is None and ix[1] == slice(None):
+        return mk(I, ASROW(A.tag[1]), (1, A.shape[0]))
+    if A.tag and A.tag[0] == 'TI' and A.ndim == 1 and isinstance(ix, slice) and ix.start is None and ix.step is None and ix.stop is not None:
+        k = tz(ix.stop)
+        I.ob('pre:prefix-not-longer-than-the-index-list', And(0 <= k, k <= tz(A.shape[0])), kind='pre')
+        return mk_idx(I, PREFIX(A.tag[1], k), conc(k))
     return None
 
 def binop_hook(I, op, a, b, what):
+    if is_T(I, a) and not isinstance(b, ArrRef) and op is ast.Pow and not is_sym(b) and b == 2:
+        return mk(I, SQ(T_(I, a)), I.A(a).shape)
+    if is_T(I, b) and not isinstance(a, ArrRef) and op is ast.Mult:
+        return mk(I, SMULT(to_real(tz(a)), T_(I, b)), I.A(b).shape)
+    if is_T(I, a) and is_T(I, b):
+        A, B = I.A(a), I.A(b)
+        if op is ast.Add and A.ndim == 1 and B.ndim == 2 and conc(B.shape[1]) == 1:         # (n,) + (m,1): outer sum, an m x n matrix
+            return mk(I, OUTERADD(A.tag[1], B.tag[1]), (B.shape[0], A.shape[0]))
+        if op in (ast.Sub, ast.Add) and ((A.ndim == 2 and B.ndim == 1) or (A.ndim == 1 and B.ndim == 2 and op is ast.Add)):
+            M, v = (A, B) if A.ndim == 2 else (B, A)
+            sd = npstubs.same_dim(M.shape[1], v.shape[0])
+            if sd is False: raise RaiseEx('ValueError')
+            if sd is None: I.ob(f'shape:{what}', tz(M.shape[1]) == tz(v.shape[0]), kind='shape')
+            return mk(I, (SUBR if op is ast.Sub else ADDR)(M.tag[1], v.tag[1]), M.shape)
     if isinstance(a, ArrRef) and isinstance(b, ArrRef):
         A, B = I.A(a), I.A(b)
         if A.tag and B.tag and A.tag[0] == 'T' and B.tag[0] == 'T' and op is ast.Sub:
@@ -72,7 +110,7 @@ def np_norm(I, a, axis=None, **kw):
     A = I.A(a)
     if A.tag and A.tag[0] == 'T':
         if A.ndim == 2 and axis == 1: return mk(I, ROWNORM(A.tag[1]), (A.shape[0],))
-        if A.ndim == 1 and axis is None: return NORM(A.tag[1])
+        if axis is None: return NORM(A.tag[1])
     raise Unsupported("np.linalg.norm form")
 
 def np_pad(I, a, pad_width, *args, **kw):
@@ -141,7 +179,57 @@ def extend_ext(ext):
     ext['mat_getitem'] = getitem_hook; ext['mat_binop'] = binop_hook
     np_ = ext['modules']['np']
     np_.linalg.norm = np_norm; np_.pad = np_pad; np_.setdiff1d = np_setdiff1d; np_.arange = np_arange
-    for k in ('joblib.Parallel', 'joblib.delayed'): ext['names'].setdefault(k, ExtClass(k.split('.')[-1]))
+    par = ExtClass('Parallel'); par.ctor = lambda I, n_jobs=None, **kw: (lambda I2, gen: gen)
+    ext['names']['joblib.Parallel'] = par
+    ext['names']['joblib.delayed'] = lambda I, f: f
+    def matmul_hook(I, a, b, what):
+        if is_T(I, a) and is_T(I, b) and I.A(a).ndim == 2 and I.A(b).ndim == 2:
+            sd = npstubs.same_dim(I.A(a).shape[1], I.A(b).shape[0])
+            if sd is False: raise RaiseEx('ValueError')
+            if sd is None: I.ob(f'shape:{what}', tz(I.A(a).shape[1]) == tz(I.A(b).shape[0]), kind='shape')
+            return mk(I, MM(T_(I, a), T_(I, b)), (I.A(a).shape[0], I.A(b).shape[1]))
+        return None
+    if not any(getattr(h, '_c13', False) for h in npstubs.MATMUL_HOOKS):
+        matmul_hook._c13 = True; npstubs.MATMUL_HOOKS.insert(0, matmul_hook)
+    ext['mat_T'] = lambda I, a: mk(I, TRT(T_(I, a)), (I.A(a).shape[1], I.A(a).shape[0])) if is_T(I, a) and I.A(a).ndim == 2 else None
+    def sum_hook(I, a, axis, kw):
+        if is_T(I, a) and I.A(a).ndim == 2 and axis == 1: return mk(I, ROWSUM(T_(I, a)), (I.A(a).shape[0],))
+        return None
+    ext['sum_hook'] = sum_hook
+    pmean = np_.mean
+    def mean_(I, a, axis=None, **kw):
+        if is_T(I, a) and I.A(a).ndim == 2 and axis == 0: return mk(I, MEAN0(T_(I, a)), (I.A(a).shape[1],))
+        return pmean(I, a, axis=axis, **kw)
+    np_.mean = mean_
+    def argsort_(I, a, **kw):
+        if is_T(I, a) and I.A(a).ndim == 1 and not kw:
+            npstubs.used('np.argsort (ascending order of a vector)')
+            return mk_idx(I, ARGSORT(T_(I, a)), I.A(a).shape[0])
+        raise Unsupported("np.argsort form")
+    np_.argsort = argsort_
+    parr = np_.array
+    def array_(I, a, dtype=None, **kw):
+        if isinstance(a, ArrRef) and I.A(a).tag == ('gen',): A = I.A(a); return I.new_arr(ArrVal(A.shape, A.elem, A.sort))
+        return parr(I, a, dtype=dtype, **kw)
+    np_.array = array_
+    ext['arr_attrs'] = dict(ext['arr_attrs'])
+    pastype, pdtype = ext['arr_attrs']['astype'], ext['arr_attrs']['dtype']
+    ext['arr_attrs']['astype'] = lambda I, a: ((lambda I2, dt, **k: a) if is_T(I, a) else pastype(I, a))
+    ext['arr_attrs']['dtype'] = lambda I, a: (Opaque('dtype') if is_T(I, a) else pdtype(I, a))
+    def comp_sym(I, e, g, it, F):
+        # (f(i) for i in range(<symbolic n>)): the body is evaluated once on a bound index; the values form the result list
+        from pyvc.engine import RangeV
+        if not isinstance(it, RangeV) or g.ifs or not isinstance(g.target, ast.Name): raise Unsupported("comprehension over symbolic iterable")
+        k = I.fresh('k!gen', IntS)
+        G = dict(F); G[g.target.id] = k
+        I.st.guards.append(And(tz(it.lo) <= k, k < tz(it.hi)))
+        I.cur['gen_index'] = k
+        try: body = I.ev(e.elt, G)
+        finally: I.st.guards.pop()
+        if isinstance(body, ArrRef) or not is_sym(body): raise Unsupported("generator body is not a scalar term")
+        n = conc(z3.simplify(tz(it.hi) - tz(it.lo)))
+        return I.new_arr(ArrVal((n,), (lambda body, k: lambda i: z3.substitute(body, (k, tz(i) + tz(it.lo))))(body, k), body.sort(), ('gen',), True))
+    ext['comp_sym'] = comp_sym
 
 FUNCS = {OR + '.fit': or_fit_contract(), OR + '.predict': or_predict_contract()}
 
@@ -235,10 +323,34 @@ def u_global_lre():
     fn = dict(FUNCS); fn[RM + '.pointwise_local_reconstruction_error'] = lre_pointwise_contract()
     return Unit('global_lre', body, funcs=fn, functions=[q])
 
-UNITS = [lambda: u_global_lre(), lambda: u_pointwise('gre'), lambda: u_pointwise('grd'), lambda: u_global('gre'), lambda: u_global('grd'), lambda: u_defaults('train'), lambda: u_defaults('test')]
+def u_pointwise_lre():
+    """pointwise_local_reconstruction_error: for EVERY test point j the value is the norm of (scaled test target j) - (local mean of the targets + prediction, for the locally
+    centred test point, of the estimator fitted on the locally centred k nearest scaled training rows), the neighbours being the first k entries of the ascending order of the
+    expanded squared Euclidean distances ||x_train||^2 + ||x_test||^2 - 2 x_test . x_train between the SCALED rows; the scaler is fitted on the training rows of each space."""
+    q = RM + '.pointwise_local_reconstruction_error'
+    def body(I):
+        s = setup(I)
+        k = I.fresh('n_local_points', IntS); I.assume(And(k >= 1, k <= s['ntr'], k <= s['n']))
+        r = I.call_func(I.repo.get(q), [s['X'], s['Y'], k], dict(train_idx=s['train'], test_idx=s['test'], scaler=s['sc'], estimator=s['est'], n_jobs=None))
+        R = I.A(r)
+        I.ob('post[C13]:one-value-per-test-point', And(BoolVal(R.ndim == 1), tz(R.shape[0]) == s['nte']), kind='post')
+        sXtr, sXte, sYtr, sYte = s['sX'](s['Xtr']), s['sX'](s['Xte']), s['sY'](s['Ytr']), s['sY'](s['Yte'])
+        D2 = SUBT(OUTERADD(ROWSUM(SQ(sXtr)), COLV(ROWSUM(SQ(sXte)))), MM(SMULT(RealVal(2), sXte), TRT(sXtr)))
+        j = I.fresh('j', IntS); I.assume(And(0 <= j, j < s['nte']))
+        N = PREFIX(ARGSORT(ROWV(D2, j)), k)
+        mx, my = MEAN0(ROWS(sXtr, N)), MEAN0(ROWS(sYtr, N))
+        pred = PRED(SUBR(ROWS(sXtr, N), mx), SUBR(ROWS(sYtr, N), my), SUBR(ASROW(ROWV(sXte, j)), mx))
+        spec = NORM(SUBT(ASROW(ROWV(sYte, j)), ADDR(pred, my)))
+        I.ob('post[C13]:pointwise-LRE-is-the-error-of-the-locally-centred-fit-on-the-k-nearest-scaled-training-rows', to_real(R.elem(j)) == spec, kind='post')
+        fits = [c for c in s['sc']._st['calls'] if c[0] == 'fit']
+        I.ob('post[C13]:scaler-is-fitted-on-the-training-rows-of-X-then-on-the-training-rows-of-Y', BoolVal(len(fits) == 2) if len(fits) != 2 else And(fits[0][1] == s['Xtr'], fits[1][1] == s['Ytr']), kind='post')
+    return Unit('pointwise_lre', body, funcs=FUNCS, functions=[q, RM + '.check_local_reconstruction_measures_input'])
+
+UNITS = [lambda: u_pointwise_lre(), lambda: u_global_lre(), lambda: u_pointwise('gre'), lambda: u_pointwise('grd'), lambda: u_global('gre'), lambda: u_global('grd'), lambda: u_defaults('train'), lambda: u_defaults('test')]
 RT = True
 EVIDENCE_LEVEL = 'exploration'      # most clauses of C13 depend on what the estimator computes: the property as a whole stays at the bounded level
 TRUSTED = ["data-flow terms: whole arrays as terms over uninterpreted scaler / estimator / orthogonal-regression functions (free term algebra: equal terms mean the same data flow)",
            "OrthogonalRegression(use_orthogonal_projector=False).predict works in the zero-padded space of max(n_x, n_y) columns (proved under C18)",
            "everything that depends on what the estimator computes (zero error on contained information, invariances under rotations / scalings / shifts, GRE <= 1 on the training set, LRE with all "
-           "training points = pointwise GRE) and the local (LRE) neighbourhood construction: bounded runtime checks only"]
+           "training points = pointwise GRE): bounded runtime checks only",
+           "local measure: np.argsort = the ascending order of a vector (ARGSORT), a slice [:k] of it = its first k entries (PREFIX), joblib.Parallel evaluates the generator in order; the squared distances are stated in the expanded form the code uses (||a||^2 + ||b||^2 - 2 a.b over the scaled rows); that the first k entries of the ascending order are k nearest rows is the meaning of ARGSORT/PREFIX, not derived"]
